@@ -10,6 +10,7 @@ import (
 	"sort"
 	"strings"
 	"sync"
+	"sync/atomic"
 	"time"
 
 	bolt "go.etcd.io/bbolt"
@@ -81,6 +82,7 @@ type Env struct {
 	pendingViol   *Violation
 
 	inCommit bool
+	sawPanic bool
 
 	// fault bookkeeping
 	MetaWrittenInCommit bool     // a meta page write was issued by the commit in progress
@@ -96,6 +98,9 @@ type Env struct {
 	// WriteTxClosed is true once a write transaction has ended since the last Open (Stats are refreshed then).
 	WriteTxClosed bool
 }
+
+// panicSeen is set when a panic of the code under test was recovered (locks may be left held).
+var panicSeen atomic.Bool
 
 var (
 	regMu    sync.Mutex
@@ -157,12 +162,27 @@ func NewEnv(prefix string) *Env {
 	return e
 }
 
-// Cleanup closes everything and removes the directory.
+// Cleanup closes everything and removes the directory. It never blocks: if the code under test
+// panicked inside a transaction the writer lock is still held and Close would wait forever - the
+// handle is then abandoned; if Close blocks without a preceding panic that is reported as a hang.
 func (e *Env) Cleanup() {
-	func() {
+	done := make(chan struct{})
+	go func() {
+		defer close(done)
 		defer func() { recover() }()
 		e.closeAll()
 	}()
+	if e.sawPanic {
+		select {
+		case <-done:
+		case <-time.After(2 * time.Second):
+		}
+	} else if hung, why := WaitOrHang(done); hung {
+		fmt.Fprintf(os.Stderr, "HANG in Close/Rollback during cleanup: %s\n", why)
+		if HangReport != nil {
+			HangReport(e.Log)
+		}
+	}
 	regMu.Lock()
 	delete(registry, e.Path)
 	regMu.Unlock()
@@ -337,6 +357,7 @@ func (e *Env) CloseDB() error {
 
 func recoverViol(v **Violation, what string) {
 	if r := recover(); r != nil {
+		panicSeen.Store(true)
 		*v = Violf("panic during %s: %v\n%s", what, r, trimStack(debug.Stack()))
 	}
 }
@@ -451,6 +472,9 @@ func (e *Env) Apply(op Op) (v *Violation) {
 	defer WatchEnd()
 	defer recoverViol(&v, op.Op)
 	v = e.apply(op)
+	if panicSeen.Load() {
+		e.sawPanic = true
+	}
 	if v == nil && e.pendingViol != nil {
 		v = e.pendingViol
 		e.pendingViol = nil
